@@ -11,11 +11,11 @@ from superrec2.utils.range_min_query import RangeMinQuery
 PROP = "C17"
 LEVEL = "exploration"
 RULE = (
-    "every rooted plane tree of any arity (unary nodes included) with <= N nodes (N = 9 quick, 11 thorough), built as an "
+    "every rooted plane tree of any arity (unary nodes included) with <= N nodes (N = 11 quick, 12 thorough), built as an "
     "ete3 tree through the API; every node, ordered pair and ordered triple of nodes (repetitions included): lca(*nodes), "
     "is_ancestor_of, is_strict_ancestor_of, is_comparable, level, distance against parent-chain definitions. "
     "RangeMinQuery: every array of length 1..L over {0,1,2} (L = 11 quick, 13 thorough) and every (start, stop) in "
-    "[0..len]^2 (empty and reversed ranges included). Edit histories: for every plane tree with <= 7 (8) nodes a structure is "
+    "[0..len]^2 (empty and reversed ranges included), up to length 8 also with elements that support `<` only. Edit histories: for every plane tree with <= 7 (8) nodes a structure is "
     "built and queried, then the same ete3 tree object is edited in place (every subtree move, every leaf addition, every "
     "leaf removal) and a second structure built on it must answer every node / pair query for the new topology. Non-trivial: a tree query whose arguments are pairwise distinct "
     "and incomparable, or a range query of length >= 2 whose minimum is not at either end."
@@ -26,7 +26,7 @@ BUDGET = {"quick": 600, "thorough": 1800}
 
 def plan(tier, seed):
     out = []
-    maxn = 9 if tier == "quick" else 11
+    maxn = 11 if tier == "quick" else 12
     for n in range(1, maxn + 1):
         shapes = list(plane_trees(n))
         for i in range(0, len(shapes), 8):
@@ -205,10 +205,40 @@ def check_edit(shape, edit):
     return None, n, nt
 
 
+class LtOnly:
+    """an element that can be compared with `<` and nothing else (the documented requirement on RangeMinQuery elements)"""
+    __slots__ = ("v",)
+
+    def __init__(self, v):
+        self.v = v
+
+    def __lt__(self, other):
+        return self.v < other.v
+
+    def __repr__(self):
+        return f"LtOnly({self.v})"
+
+
 def check_rmq(arr):
     rmq = RangeMinQuery(list(arr))
     L = len(arr)
     n = nt = 0
+    if L <= 8:
+        # the same array with elements that support `<` only; the answer must be AN element of minimal value from the range
+        objs = [LtOnly(x) for x in arr]
+        try:
+            rmq2 = RangeMinQuery(list(objs))
+            for a in range(L + 1):
+                for b in range(L + 1):
+                    n += 1
+                    got = rmq2(a, b)
+                    if a < b:
+                        if not any(got is o for o in objs[a:b]) or got.v != min(arr[a:b]):
+                            return (f"rmq({a}, {b}) on {objs} (elements comparable by < only) = {got!r}", [a, b]), n, nt
+                    elif got is not None:
+                        return (f"rmq({a}, {b}) on {objs} = {got!r}, expected None", [a, b]), n, nt
+        except Exception as exc:
+            return (f"elements comparable by < only, array {objs}: raised {type(exc).__name__}: {exc}", [0, L]), n, nt
     for a in range(L + 1):
         for b in range(L + 1):
             n += 1
